@@ -46,7 +46,13 @@ std::vector<ComponentPtr> allComponents(const ModelPtr &m);
 
 // ----- issues -----
 std::string levelName(Issue::Level l);
-std::string ruleName(Issue::ReferenceRule r); // numeric + heading-less name via url()
+std::string ruleName(Issue::ReferenceRule r);
+// Key for "the validator rejected a model that is valid by construction": rule of the first issue, plus a suffix for the
+// shapes that are known findings (so that they, and only they, can be listed):
+//   :ids-of-import-sources-only  the id of ONE import element counted once per imported entity
+//   :mismatch-of-zero            connected variables whose units "do not match" by base^0 and factor 10^0 only
+std::string rejectionKey(const Logger &validator);
+std::string mismatchOfZero(const std::string &description); // ":mismatch-of-zero" or "" // numeric + heading-less name via url()
 // ordered list "level|rule|itemtype|description" per issue
 std::vector<std::string> issueList(const Logger &lg);
 std::string issueSummary(const Logger &lg, size_t max = 8);
